@@ -3,14 +3,15 @@
 ALL="C01 C02 C03 C04 C05 C06 C07 C08 C09 C10 C11 C12 C13 C14 C15 C16 C17 C18 C19 C20"
 while [ ! -f /tmp/sens/STOP ]; do
   did=0
-  for pass in 1 2; do
+  for pass in ${SEED_PASSES:-1 2}; do
   for d in /verif/seeded/*/; do
     [ -f /tmp/sens/STOP ] && exit 0
     n=$(basename "$d"); own=${n%%-*}
     grep -q "demo_clean_rc=0 suite_patched_rc=0 demo_patched_rc=[1-9]" "$d/confirm.log" 2>/dev/null || continue
     if [ $pass -eq 1 ]; then ids="$own"; else ids="$ALL"; fi
     todo=""
-    for id in $ids; do grep -q "^$n $id seed=${VERIF_SEED:-0} " "$d/matrix.txt" 2>/dev/null || todo="$todo $id"; done
+    rev=$(git -C /verif rev-parse --short HEAD)
+    for id in $ids; do grep -q "^$n $id seed=${VERIF_SEED:-0} rc=[0-9]* verif=${SEED_REV:-$rev} " "$d/matrix.txt" 2>/dev/null || todo="$todo $id"; done
     [ -z "$todo" ] && continue
     /verif/tools/seed_matrix.sh "$n" $todo >> /verif/out/matrix-queue.log 2>&1
     did=1
